@@ -249,6 +249,13 @@ pub fn run_grevm(
                 o.alive[3].load(Ordering::Relaxed) == o.parked[3].load(Ordering::Relaxed) &&
                 o.parked[2].load(Ordering::Relaxed) + o.parked[3].load(Ordering::Relaxed) > 0;
             if stable >= 3 && (spinning || (no_workers && coordinators_parked)) && !cancelled {
+                // confirmation: on a heavily loaded machine a thread that was just unparked may not
+                // have run yet; a real stall is still there, unchanged, much later
+                std::thread::sleep(Duration::from_millis(1500));
+                if done.load(Ordering::SeqCst) || o.seq_now() != seq {
+                    stable = 0;
+                    continue;
+                }
                 let dump = scheduler.verif_dump();
                 stall = Some(classify_stall(&dump, n));
                 scheduler.verif_cancel();
